@@ -18,6 +18,8 @@ def items(pid):
         (T.calc_h_first(pid),),
         (T.calc_h(pid, drop=('event-index-only-moved-by-do_switch',)), None, T.replay_calc_h),
         (T.run(pid, drop=('success=>initialisation-test-not-failed',)),),
+        # a resumed run: its first step, too, is clamped to the end time and to the next pending event (contract shared with C14)
+        (T.init_resume(pid),),
     ]
 
 
